@@ -318,6 +318,7 @@ func Verif_C03_router() {
 				verifAssert(has && v == req[j], "each :name is bound to the corresponding segment of the cleaned path")
 			}
 		}
+		verifAssert(len(env.vars) == np, "only the matched pattern's :names are visible to the handler (no binding of an abandoned alternative leaks)")
 		if !rt.allLit {
 			verifAssert(!anyLit, "an all-literal matching pattern wins over patterns with parameters")
 		}
